@@ -76,6 +76,7 @@ class LifeWorld(CompWorld):
             self.budget += 1
             self.nops -= 1
             self.apply(('newsys',))
+        self.trail = []          # operations of the fixed start state are not part of the recipe
 
     def menu(self):
         out = []
